@@ -41,6 +41,7 @@ type c05Nego struct {
 	Reply string     `json:"reply"`
 	Agent [3]*string `json:"agent"` // span, log, custom as decimal uint64; null = not written
 	E2E   bool       `json:"e2e"`
+	Again bool       `json:"again"` // repeat the negotiation on the same application object (a reconnect)
 }
 
 type c05NegoOut struct {
@@ -197,7 +198,7 @@ func c05RunNego(c c05Nego, k int) (out c05NegoOut) {
 		hv := NewHarvest(time.Now(), app.connectReply.EventHarvestConfig.EventConfigs)
 		out.Caps = c05Caps(hv)
 	}()
-	if out.Panic != "" || out.Unsafe {
+	if out.Panic != "" || out.Unsafe || !c.Again {
 		return
 	}
 	// second connect of the same application (its description lives as long as the daemon does)
